@@ -102,10 +102,12 @@ def run_job(job):
             probes["cwd_differs"] = probes.get("cwd_differs", 0) + 1
         if r.get("out_text") and "#if" in r["out_text"]:
             probes["conditional_interactions"] = probes.get("conditional_interactions", 0) + 1
-        for clause, msg in r.get("roundtrip") or []:
+        for item in r.get("roundtrip") or []:
+            clause, msg = item[0], item[1]
+            facts = item[2] if len(item) > 2 else {}
             if clause == "harness":
                 return {"status": "harness_error", "error": msg, "violations": []}
-            viols.append({"property": PROP, "clause": clause, "seq": r["i"], "facts": {},
+            viols.append({"property": PROP, "clause": clause, "seq": r["i"], "facts": facts,
                           "msg": f"call {r['i']} ({op['out']}): {msg}"})
         rg = op.get("resgraph")
         if (rg and len(rg["edges"]) >= 1) or op.get("lib"):
